@@ -1,7 +1,11 @@
 package extractor
 
 import (
+	"bytes"
 	"fmt"
+	"io"
+	"regexp"
+	"slices"
 
 	"github.com/grafov/m3u8"
 	"github.com/internetarchive/Zeno/pkg/models"
@@ -11,6 +15,9 @@ func IsM3U8(URL *models.URL) bool {
 	return isContentType(URL.GetResponse().Header.Get("Content-Type"), "application/vnd.apple.mpegurl") ||
 		isContentType(URL.GetResponse().Header.Get("Content-Type"), "application/x-mpegURL")
 }
+
+// mediaURIRegex matches the URI attribute of an EXT-X-MEDIA tag (an alternative rendition)
+var mediaURIRegex = regexp.MustCompile(`(?m)^#EXT-X-MEDIA:.*?URI="([^"]+)"`)
 
 func M3U8(URL *models.URL) (assets []*models.URL, err error) {
 	defer URL.RewindBody()
@@ -25,7 +32,12 @@ func M3U8(URL *models.URL) (assets []*models.URL, err error) {
 
 	var rawAssets ([]string)
 
-	playlist, listType, err := m3u8.DecodeFrom(URL.GetBody(), true)
+	body, err := io.ReadAll(URL.GetBody())
+	if err != nil {
+		return assets, err
+	}
+
+	playlist, listType, err := m3u8.DecodeFrom(bytes.NewReader(body), true)
 	if err != nil {
 		return assets, err
 	}
@@ -53,6 +65,14 @@ func M3U8(URL *models.URL) (assets []*models.URL, err error) {
 						rawAssets = append(rawAssets, alt.URI)
 					}
 				}
+			}
+		}
+
+		// The decoder only attaches the renditions of groups that a variant references:
+		// the renditions of the other groups are taken from the playlist text
+		for _, match := range mediaURIRegex.FindAllSubmatch(body, -1) {
+			if uri := string(match[1]); !slices.Contains(rawAssets, uri) {
+				rawAssets = append(rawAssets, uri)
 			}
 		}
 	}
